@@ -10,7 +10,7 @@
 // is_deleted only; end == begin advanced; --(++it) == it inside the valid range; nothing incident =>
 // immediately invalid; valence / is_boundary / boundary iterators against brute force.
 //
-// Guards: the harness never executes a step that the C++ sources make undefined (out-of-range read);
+// Guards (D8 / D15 are repaired in /repo and no longer guarded): the harness never executes a step that the C++ sources make undefined (out-of-range read);
 // the rules are stated where they are applied and are the same rules ocaml/iterdriver.ml applies to the
 // model, so a disagreement about WHEN something is undefined shows up as a difference ("U" vs a value).
 #include "probe.hh"
@@ -95,6 +95,18 @@ static void do_circ(std::ostream &o, OracleOut &out, const char *nm, int x, int 
     }
     auto b = mk(m);
     if (!b.valid()) return;           // rule: no stepping on a circulator that is invalid at construction (reads l[1] of an empty list)
+    {   // the copying forms operator+ / operator-
+        auto p2 = b + 2;
+        auto p2m1 = p2 - 1;
+        auto m1 = b - 1;
+        o << "C " << nm << " " << x << " arith m=" << m << " : " << cobs(p2) << " " << cobs(p2m1) << " " << cobs(m1) << "\n";
+        if (g_oracle && ex.mode != Expect::None) {
+            auto u = b; ++u; auto u1 = u; ++u;
+            if (!(u == p2)) out.fail("C05", std::string(nm) + "(" + std::to_string(x) + "): it + 2 differs from ++ applied twice");
+            if (p2.valid() && u1.valid() && !(p2m1 == u1)) out.fail("C05", std::string(nm) + "(" + std::to_string(x) + "): (it + 2) - 1 differs from it + 1");
+            if (!(b == mk(m))) out.fail("C05", std::string(nm) + "(" + std::to_string(x) + "): operator+ / operator- modified their operand");
+        }
+    }
     for (auto &w : walks) {
         auto it = b;
         std::string s;
@@ -104,8 +116,6 @@ static void do_circ(std::ostream &o, OracleOut &out, const char *nm, int x, int 
             if (w[i] == '+') fwd(it, i); else bwd(it, i);
             if (!s.empty()) s += " ";
             s += cobs(it);
-            // rule: CellFaceIter::operator-- returns early with hf_iter_ == end(); any further step is undefined
-            if (is_cf && it.lap() < 0) stop = true;
             if (g_oracle && ex.mode != Expect::None && before.valid() && it.valid()) {
                 auto t = it;
                 if (w[i] == '+') --t; else ++t;
@@ -169,6 +179,12 @@ static void do_entity(std::ostream &o, OracleOut &out, const char *kn, int n, co
         It r = e; std::string s;
         for (int i = 0; i < n + 2; ++i) { --r; if (i) s += " "; s += eobs(r); }
         o << "I " << kn << " rev : " << s << "\n";
+    }
+    {   // the copying forms operator+ / operator-  (rule: no -- from beyond end())
+        It p2 = b + 2;
+        std::string t = (*p2).idx() > n ? std::string("s") : eobs(p2 - 1);
+        o << "I " << kn << " arith : " << eobs(p2) << " " << t << " " << eobs(b - 1) << "\n";
+        if (g_oracle) { It u = b; ++u; ++u; if (!(u == p2)) out.fail("C05", std::string(kn) + " iterator: it + 2 differs from ++ applied twice"); }
     }
     if (g_oracle) {
         if (vals != live) out.fail("C05", std::string(kn) + " iterator visits " + vstr(vals) + ", the not-deleted entities are " + vstr(live));
@@ -248,11 +264,12 @@ static bool safe_isb_c(PM &m, int c) {
 
 static void query_bc(World<Mesh> &w, std::ostream &o, OracleOut &out, const std::vector<std::string> &walks, bool guard, const Brute &br, const Snap &s) {
     PM &m = w.mesh;
+    // no harness-side guard any more: BoundaryItemIter<CellIter>::has_incidences() is the face-incidence flag (D8 repaired)
+    (void)guard;
     bool unsafe = false;
-    if (guard) for (int c = 0; c < (int)s.C.size(); ++c) if (!s.cd[c] && !safe_isb_c(m, c)) unsafe = true;
     std::vector<int> live, ex;
     for (int c = 0; c < (int)s.C.size(); ++c) if (!s.cd[c]) { live.push_back(c); if (br.ok && br.isb_c(c)) ex.push_back(c); }
-    do_bnd<BoundaryCellIter>(o, out, "C", unsafe, !live.empty(), walks, [&]() { return m.bc_iter(); }, true, ex, br.ok && s.fbu);
+    do_bnd<BoundaryCellIter>(o, out, "C", unsafe, !live.empty(), walks, [&]() { return m.bc_iter(); }, s.fbu, ex, br.ok);
 }
 
 static void query(World<Mesh> &w, std::ostream &o, int m_laps, const std::vector<std::string> &walks) {
@@ -340,20 +357,35 @@ static void query(World<Mesh> &w, std::ostream &o, int m_laps, const std::vector
                                                    r.insert(r.end(), part.begin(), part.end()); } return r; }() : none(), !s.fd[x / 2]))
 #undef CIRC
 
-    // ---- "natural" incident sets (all cells touching the vertex / the edge), see KNOWN_SIGNATURES in lib/checks_iter.py
+    // ---- "natural" incident sets: all live cells with a face touching the vertex / on the edge.  vc_iter follows outgoing
+    // halfedges and ec_iter halfedge 0 only, which is complete when the faces at the vertex are closed loops / the cells at the
+    // edge are closed surfaces (everything the topology checks accept; theorems vc_natural / ec_natural).  A mismatch is
+    // reported as "natural-open" when THIS oracle establishes that the centre touches a non-closed face / cell (outside the
+    // valid histories: suppressed, see KNOWN_SIGNATURES in lib/checks_iter.py) and as a C05 failure otherwise.
     if (g_oracle && br.ok && full) {
         OracleOut nat{o};
+        auto face_closed = [&](int f) {
+            for (int h : s.F[f]) { bool succ = false, pred = false;
+                for (int g : s.F[f]) { if (s.from(g) == s.to(h)) succ = true; if (s.to(g) == s.from(h)) pred = true; }
+                if (!succ || !pred) return false; }
+            return true; };
+        auto cell_closed = [&](int c) {
+            for (int hf : s.C[c]) for (int h : s.halfface(hf)) { bool found = false;
+                for (int hf2 : s.C[c]) if (br.in(s.halfface(hf2), h ^ 1)) found = true;
+                if (!found) return false; }
+            return true; };
         for (int v : lv) {
-            std::vector<int> natl, got;
+            std::vector<int> natl, got; bool open = false;
+            for (int f : lf) if (br.face_touches(f, v) && !face_closed(f)) open = true;
             for (int c : lc) { bool hit = false; for (int hf : s.C[c]) if (br.face_touches(hf / 2, v)) hit = true; if (hit) natl.push_back(c); }
             for (auto it = m.vc_iter(VertexHandle(v)); it.valid(); ++it) got.push_back((*it).idx());
-            if (sorted(got) != natl) nat.fail("C01", "natural vc(" + std::to_string(v) + "): vc_iter yields " + vstr(got) + " but the live cells with a face touching the vertex are " + vstr(natl));
+            if (sorted(got) != natl) nat.fail(open ? "C01" : "C05", std::string(open ? "natural-open" : "natural") + " vc(" + std::to_string(v) + "): vc_iter yields " + vstr(got) + " but the live cells with a face touching the vertex are " + vstr(natl));
         }
         for (int e : le) {
-            std::vector<int> natl, got;
-            for (int c : lc) { bool hit = false; for (int hf : s.C[c]) for (int h : s.F[hf / 2]) if (h / 2 == e) hit = true; if (hit) natl.push_back(c); }
+            std::vector<int> natl, got; bool open = false;
+            for (int c : lc) { bool hit = false; for (int hf : s.C[c]) for (int h : s.F[hf / 2]) if (h / 2 == e) hit = true; if (hit) { natl.push_back(c); if (!cell_closed(c)) open = true; } }
             for (auto it = m.ec_iter(EdgeHandle(e)); it.valid(); ++it) got.push_back((*it).idx());
-            if (sorted(got) != natl) nat.fail("C01", "natural ec(" + std::to_string(e) + "): ec_iter yields " + vstr(got) + " but the live cells with a face on the edge are " + vstr(natl));
+            if (sorted(got) != natl) nat.fail(open ? "C01" : "C05", std::string(open ? "natural-open" : "natural") + " ec(" + std::to_string(e) + "): ec_iter yields " + vstr(got) + " but the live cells with a face on the edge are " + vstr(natl));
         }
     }
 
@@ -432,7 +464,7 @@ static void run_script(const std::vector<std::string> &lines) {
             Snap s = take_snap(w); Brute br(s); OracleOut out{o};
             query_bc(w, o, out, {}, false, br, s);
         } else if (toks[0] == "QueryCF") {
-            // D15 replay: cf_iter(c); --it; ++it;  (the harness rule that stops a CellFaceIter walk once lap() < 0 is NOT applied)
+            // D15 regression: cf_iter(c); --it; ++it;  (used to read past the end of the halfface vector)
             o << "== " << lineno << " QueryCF -> Ok -\n";
             dump_state(w, o);
             { std::string s0 = o.str(); fwrite(s0.data(), 1, s0.size(), stdout); fflush(stdout); o.str(""); }
